@@ -32,13 +32,19 @@ impl Ctx<'_> {
 }
 
 fn plans_mut(sc: &mut Scenario) -> Vec<&mut Plan> {
-    sc.ops
-        .iter_mut()
-        .filter_map(|op| match op {
-            Op::Load { plan, .. } => Some(plan),
-            _ => None,
-        })
-        .collect()
+    let mut out = Vec::new();
+    for op in sc.ops.iter_mut() {
+        match op {
+            Op::Load { plan, .. } => out.push(plan),
+            Op::Concurrent { threads, .. } => {
+                for t in threads.iter_mut() {
+                    out.push(&mut t.plan);
+                }
+            }
+            _ => {}
+        }
+    }
+    out
 }
 
 /// Candidate simplifications of one plan, most drastic first.
@@ -177,6 +183,33 @@ pub fn shrink(
                 best = c;
                 best_v = nv;
                 progress = true;
+            }
+        }
+
+        // 1b. fewer client threads in concurrent operations; simpler schedules
+        for i in 0..best.ops.len() {
+            loop {
+                let Op::Concurrent { threads, .. } = &best.ops[i] else { break };
+                let n = threads.len();
+                let mut improved = false;
+                if n > 1 {
+                    for j in (0..n).rev() {
+                        let mut c = best.clone();
+                        if let Op::Concurrent { threads, .. } = &mut c.ops[i] {
+                            threads.remove(j);
+                        }
+                        if let Some(nv) = cx.fails(&c) {
+                            best = c;
+                            best_v = nv;
+                            improved = true;
+                            progress = true;
+                            break;
+                        }
+                    }
+                }
+                if !improved {
+                    break;
+                }
             }
         }
 
